@@ -168,5 +168,30 @@ theorem timeUUIDWith (t : BitVec 64) (c : BitVec 32) (nd : List UInt8) :
   | a :: b :: d :: e :: f :: g :: r =>
     simp [List.replicate, *]
 
+/-! ### `UUIDFromBytes` (the length test of the model's `unmarshalCQL` / `unmarshalCQLTime`: `data.length ≠ 16` is an error) -/
+
+theorem len_ne' (n k : Nat) (h : n < 2^63) (hk : k < 2^63) : (BitVec.ofNat 64 n != BitVec.ofNat 64 k) = decide (n ≠ k) := by
+  by_cases e : n = k
+  · simp [e]
+  · simp only [e, ne_eq, not_false_eq_true, decide_true, bne_iff_ne]
+    intro h'
+    have := congrArg BitVec.toNat h'
+    simp at this; omega
+
+/-- `UUIDFromBytes(input)`: an error unless exactly 16 bytes, else those bytes (`copy(u[:], input)` into the zero UUID) -/
+theorem uuidFromBytes (b : List UInt8) (h : b.length < 2^63) :
+    (let r := Gen.Uuid.UUIDFromBytes (b.map (·.toBitVec))
+     if r.2 then none else some (r.1.map UInt8.ofBitVec)) = (if b.length = 16 then some b else none) := by
+  unfold Gen.Uuid.UUIDFromBytes
+  rw [List.length_map, show (0x10#64 : BitVec 64) = BitVec.ofNat 64 16 from rfl, len_ne' _ _ h (by decide)]
+  by_cases e : b.length = 16
+  · have hm : (b.map (·.toBitVec)).length = 16 := by simpa using e
+    have back2 : ∀ s : List UInt8, List.map (UInt8.ofBitVec ∘ fun x => x.toBitVec) s = s := by
+      intro s; induction s with
+      | nil => rfl
+      | cons a s ih => simp [ih]
+    simp [e, Gen.Uuid.goCopyAt, hm, back2]
+    exact List.take_of_length_le (by omega)
+  · simp [e]
 
 end GenTie.C19
